@@ -131,7 +131,7 @@ def write_sed_file(path, name, wav, nu, apertures, flux, err, descending_wav=Tru
 
 
 def write_convolved_file(path, names, apertures, flux, err, filtwav, fmt='D', gz=False,
-                         pad_names=False):
+                         pad_names=False, unit='mJy', ap_unit='AU'):
     """convolved/<filter>.fits: flux[m, a] in mJy; apertures AU or None"""
     flux = np.asarray(flux, float)
     err = np.asarray(err, float)
@@ -146,13 +146,13 @@ def write_convolved_file(path, names, apertures, flux, err, filtwav, fmt='D', gz
     else:
         f2, e2, ffmt = flux, err, '%d%s' % (n_ap, fmt)
     hdu1 = fits.BinTableHDU.from_columns([_col('MODEL_NAME', arr, '30A'),
-                                          _col('TOTAL_FLUX', f2, ffmt, 'mJy'),
-                                          _col('TOTAL_FLUX_ERR', e2, ffmt, 'mJy')],
+                                          _col('TOTAL_FLUX', f2, ffmt, unit),
+                                          _col('TOTAL_FLUX_ERR', e2, ffmt, unit)],
                                          name='CONVOLVED FLUXES')
     hdus = [hdu0, hdu1]
     if apertures is not None:
         hdus.append(fits.BinTableHDU.from_columns(
-            [_col('APERTURE', np.asarray(apertures, float), fmt, 'AU')], name='APERTURES'))
+            [_col('APERTURE', np.asarray(apertures, float), fmt, ap_unit)], name='APERTURES'))
     fits.HDUList(hdus).writeto(path, overwrite=True)
     if gz:
         _gz(path)
